@@ -8,6 +8,7 @@ from mirsym import engine
 from mirsym.interp import to_z3
 from . import facerule as FR
 from . import nnrules
+from . import oracle as OR
 from .common import zdot
 
 LEVEL = 'other'
@@ -40,6 +41,24 @@ def replay_pair(run, pid, what, model, a, b, case, mask_some):
         path = engine.save_replay(pid, payload)
         run.violation('%s: %s (i=%d, j=%d, mask=%r)' % (what, bad, i, j, mask), path)
     else:
+        run.suspect.append('%s: solver counterexample i=%d j=%d mask=%r does not reproduce natively' % (what, i, j, mask))
+
+
+def replay_labels(run, pid, what, model, a, case, mask_some):
+    """native confirmation of a wrong-label counterexample: the discrete part of the model (labels, mask bits, dimension) completed to
+    inputs of the public API; the statements of C03/C04/C07/C12 are evaluated on the real tessellation"""
+    i = eval_int(model, a['idx'])
+    j = eval_int(model, a['j'])
+    d = {'OneD': 1, 'TwoD': 2, 'ThreeD': 3}[case.dim]
+    bit = lambda k: bool(engine.model_value(model, a['mask'](k)))
+    if i > 8 or j > 8:
+        # large labels: keep their order relation and their two mask bits
+        bi, bj = (bit(i), bit(j)) if mask_some else (True, True)
+        i, j = (0, 1) if i < j else (1, 0)
+        mask = ([bi, bj] if i == 0 else [bj, bi]) if mask_some else None
+    else:
+        mask = [bit(k) for k in range(max(i, j) + 1)] if mask_some else None
+    if not OR.confirm_family(pid, run, what + ' (i=%d, j=%d, mask=%r)' % (i, j, mask), d, False, mask, (i, j), pids=('C03', 'C04', 'C07', 'C12')):
         run.suspect.append('%s: solver counterexample i=%d j=%d mask=%r does not reproduce natively' % (what, i, j, mask))
 
 
@@ -106,10 +125,12 @@ def pair_obligations(run, funcs, pid='C03'):
                 left, right, shift, normal, area, centroid = FR.face_fields(face)
                 H = [c for c in s.pc if not isinstance(c, bool)]
                 ok = z3.And(to_z3(left) == a['idx'], z3.BoolVal(right.name == 'Some') if True else True)
-                run.prove('%s %s: recorded face has left = own index, right = Some(j), no shift' % (pid, name), H,
-                          z3.Not(z3.And(to_z3(left) == a['idx'],
-                                        to_z3(right.items[0]) == a['j'] if right.name == 'Some' else z3.BoolVal(False),
-                                        z3.BoolVal(shift.name == 'None'))), timeout=20, cross=False)
+                v, m = run.prove('%s %s: recorded face has left = own index, right = Some(j), no shift' % (pid, name), H,
+                                 z3.Not(z3.And(to_z3(left) == a['idx'],
+                                               to_z3(right.items[0]) == a['j'] if right.name == 'Some' else z3.BoolVal(False),
+                                               z3.BoolVal(shift.name == 'None'))), timeout=20, cross=False, on_sat='caller')
+                if v == 'sat':
+                    replay_labels(run, pid, '%s %s: recorded face labels differ from (own index, Some(j), no shift)' % (pid, name), m, a, case, mask_some)
     # shifted and wall planes: always constructed by their own cell (if valid), whatever the mask says
     for dim in FR.DIMS:
         for (rs, ss) in ((True, True), (False, False), (False, True)):
@@ -152,6 +173,8 @@ def check(run):
 
 def replay(path):
     d = json.load(open(path))
+    if d['kind'] == 'scenario':
+        return OR.replay(d)
     if d['kind'] == 'face_rule_pair':
         bad = check_pair_native(d)
         print(bad)
